@@ -185,10 +185,18 @@ Definition wf_rec (r : wrec) : bool :=
   | WManifestSwitch e segs pr sr =>
       u64ok e && (len segs <? 4294967296) && forallb (fun s => u64ok (fst s) && u64ok (snd s)) segs && u64ok pr && u64ok sr
   | WCheckpoint u e pr sr => u64ok u && u64ok e && u64ok pr && u64ok sr
-  | WSetNodeProp n k v => u32ok n && keyok k && wf v
-  | WSetEdgeProp s r d k v => u32ok s && u32ok r && u32ok d && keyok k && wf v
+  | WSetNodeProp n k v => u32ok n && keyok k && wfd v
+  | WSetEdgeProp s r d k v => u32ok s && u32ok r && u32ok d && keyok k && wfd v
   | WRemoveNodeProp n k => u32ok n && keyok k
   | WRemoveEdgeProp s r d k => u32ok s && u32ok r && u32ok d && keyok k
+  end.
+
+(* encode_body refuses (Err) a property record whose value the decoder would refuse *)
+Definition rec_too_deep (r : wrec) : bool :=
+  (wal_encode_checks_nesting =? 1) &&
+  match r with
+  | WSetNodeProp _ _ v | WSetEdgeProp _ _ _ _ v => pv_max_nesting <? cdepth v
+  | _ => false
   end.
 
 Definition seg_eqb (a b : N * N) : bool := (fst a =? fst b) && (snd a =? snd b).
